@@ -698,6 +698,14 @@ class Evaluator:
             # an empty literal range never runs
             if lo.is_const() and hi.is_const() and hi.const() <= lo.const():
                 return True
+        elif isinstance(it, Term) and it.head == 'lib:itertools.count':
+            start = it.kw('start') if it.kw('start') is not None else (it.args[0] if it.args else Num(C(0)))
+            step = it.kw('step') if it.kw('step') is not None else (it.args[1] if len(it.args) > 1 else Num(C(1)))
+            if isinstance(start, Num) and isinstance(step, Num) and step.is_const() and step.const() == 1:
+                ctx.kind, ctx.lo, ctx.hi = 'count', start.r, None      # 0, 1, 2, ... without end
+                elem = Num(lsym)
+            else:
+                elem = self.element_of(it, lsym)
         elif isinstance(it, Term) and it.head == 'zip':
             ctx.kind = 'zip'
             lens = [a.length for a in it.args if isinstance(a, Num) and a.length is not None]
@@ -729,9 +737,14 @@ class Evaluator:
             self.loops.append(ctx)
             try:
                 self.assign(s.target, elem, body, s)
+                entry_env = dict(body.env)
                 self.exec_block(s.body, body)
             finally:
                 self.loops.pop()
+            if attempt == 1 or True:
+                self.loop_log = [e_ for e_ in self.loop_log if e_['lid'] != lid]
+                self.loop_log.append({'node': s, 'lid': lid, 'pre': st.clone(), 'entry': dict(entry_env), 'end': body, 'cond': Const(True), 'depth': len(self.loops),
+                                      'names': set(names), 'orelse': bool(s.orelse), 'for': True, 'var': var, 'sym': lsym, 'kind': ctx.kind, 'lo': ctx.lo, 'hi': ctx.hi})
             if attempt == 1:
                 break
             carried = self._carried_values(ctx, names - tnames, st, body)
@@ -958,7 +971,20 @@ class Evaluator:
             ev = self.emit('with_enter', st, s, ctx=ctxv)
             entered.append(ev)
             if item.optional_vars is not None:
-                self.assign(item.optional_vars, Term('enter', (ctxv,), kind='unknown'), st, s)
+                bound_val = Term('enter', (ctxv,), kind='unknown')
+                for cv in ([ctxv] if not isinstance(ctxv, Gam) else []):
+                    if isinstance(cv, Term) and cv.head == 'lib:contextlib.nullcontext':
+                        inner = cv.kw('enter_result') if cv.kw('enter_result') is not None else (cv.args[0] if cv.args else NONE)
+                        bound_val = inner
+                if isinstance(ctxv, Gam):
+                    def ent(c_):
+                        if isinstance(c_, Gam):
+                            return gamma(c_.pred, ent(c_.a), ent(c_.b))
+                        if isinstance(c_, Term) and c_.head == 'lib:contextlib.nullcontext':
+                            return c_.kw('enter_result') if c_.kw('enter_result') is not None else (c_.args[0] if c_.args else NONE)
+                        return Term('enter', (c_,), kind='unknown')
+                    bound_val = ent(ctxv)
+                self.assign(item.optional_vars, bound_val, st, s)
         r = self.exec_block(s.body, st)
         for ev in reversed(entered):
             self.emit('with_exit', st, s, ctx=ev.data['ctx'], enter_seq=ev.seq)
@@ -1070,6 +1096,8 @@ class Evaluator:
             if m is not None:
                 return Fn('repo', m)
             return Term('attr', (base, Const(attr)))
+        if isinstance(base, Fn) and base.fkind == 'builtin' and base.ref == 'str' and attr == 'maketrans':
+            return Fn('builtin', 'str.maketrans')
         if isinstance(base, Term) and base.head == 'super':
             cls, selfv = base.args
             mro = self.prog.mro(selfv.cls) if isinstance(selfv, Obj) else self.prog.mro(cls.ref)
@@ -1100,6 +1128,8 @@ class Evaluator:
             return Num(n_.length) if attr == 'size' else Tup([Num(n_.length)])
         if isinstance(base, Gam):
             return gamma(base.pred, self.getattr_val(base.a, attr, st, node), self.getattr_val(base.b, attr, st, node))
+        if isinstance(base, Const) and isinstance(base.v, str) and attr in PURE_STR_METHODS:
+            return Fn('builtin', f"method.{attr}", self_val=base)
         if attr in NDARRAY_METHODS or attr in MUTATING_METHODS or attr in ('append', 'extend', 'values', 'read_text', 'hexdigest', 'update', 'read',
                                                'format', 'replace', 'startswith', 'endswith', 'get', 'close', 'write',
                                                'items', 'keys', 'join', 'strip', 'split', 'lower', 'upper'):
@@ -1158,6 +1188,21 @@ class Evaluator:
         return Term('star', (self.eval(e.value, st),))
 
     def eval_ListComp(self, e, st):
+        if len(e.generators) == 1 and e.generators[0].ifs:
+            g0 = e.generators[0]
+            it0 = self.eval(g0.iter, st)
+            if isinstance(it0, Tup):
+                # a filtered comprehension over a literal table: conditions that fold are applied item by item
+                vals = []
+                for item in it0.items:
+                    s2 = st.clone()
+                    self.assign(g0.target, item, s2, e)
+                    conds = [self.truth(self.eval(c_, s2), s2, c_) for c_ in g0.ifs]
+                    if not all(isinstance(c_, Const) for c_ in conds):
+                        return self.unsupported(st, e, 'comprehension filter that does not fold')
+                    if all(c_.v for c_ in conds):
+                        vals.append(self.eval(e.elt, s2))
+                return Tup(vals, 'list')
         if len(e.generators) != 1 or e.generators[0].ifs:
             vals = self.unsupported(st, e, 'complex comprehension')
             return vals
@@ -1410,6 +1455,10 @@ class Evaluator:
                 return Const((a.v in [i.v for i in b.items]) != neg)
             if isinstance(a, Const) and isinstance(b, Kw) and b.rest is None:
                 return Const((a.v in b.items) != neg)
+            if isinstance(a, Const) and isinstance(a.v, str) and isinstance(b, Term) and b.head == 'modvars':
+                bound = module_binds(self.prog, b.args[0].args[0].v, a.v)
+                if bound is not None:
+                    return Const(bound != neg)
             p = P('in', a, b)
             return p_not(p) if neg else p
         if isinstance(a, Const) and isinstance(b, Const):
@@ -1503,6 +1552,13 @@ class Evaluator:
                     g = lambda x: None if isinstance(x, Const) else int(x.const())
                     return Tup(base.items[slice(g(lo), g(hi), g(step))], base.kind)
             return Term('item', (base, idx))
+        if isinstance(base, Term) and base.head == 'modvars' and isinstance(idx, Const) and isinstance(idx.v, str):
+            # vars(module)[name] is getattr(module, name); a missing name is a KeyError
+            bound = module_binds(self.prog, base.args[0].args[0].v, idx.v)
+            self.lib_event('builtins.getattr', [base.args[0], idx], {}, None, st, node, NONE)
+            if bound is False:
+                raise _PyRaise('KeyError')
+            return Term('getattr', (base.args[0], idx), kind='unknown')
         if isinstance(base, Kw):
             if isinstance(idx, Const) and idx.v in base.items:
                 return base.items[idx.v]
@@ -1631,6 +1687,8 @@ class Evaluator:
                     self.emit('new', st, node, obj=obj, cls=ci, pos=pos, kw=kw)
                     if init is not None:
                         self._invoke(init, st, pos, kw, star_kw, obj, node)
+                    else:
+                        self._synth_init(ci, obj, pos, kw, st, node)
                     return obj
                 t = Term('new:' + ci.qualname, pos, kw, kind='object', node=node)
                 self.emit('call', st, node, callee=init, term=t, bound=None)
@@ -1655,6 +1713,41 @@ class Evaluator:
                  kind='unknown', node=node)
         self.emit('apply', st, node, fn=fn, pos=pos, kw=kw, star_kw=star_kw, term=t)
         return t
+
+    def _synth_init(self, ci: ClassInfo, obj: Obj, pos, kw, st, node):
+        """@dataclass / typing.NamedTuple classes without a written __init__: the annotated class-level names, in order, are the constructor
+        parameters and become the fields (a __post_init__ is then run)"""
+        decos = [ast.unparse(d) for d in ci.node.decorator_list]
+        is_dc = any('dataclass' in d for d in decos)
+        is_nt = any(ast.unparse(b).endswith('NamedTuple') for b in ci.node.bases)
+        if not (is_dc or is_nt):
+            if pos or kw:
+                self.issue(st, node, f"constructor arguments for {ci.qualname}, which defines no __init__")
+            return
+        fields = [(n.target.id, n.value) for n in ci.node.body if isinstance(n, ast.AnnAssign) and isinstance(n.target, ast.Name)]
+        vals = {}
+        for (name, _), v in zip(fields, pos):
+            vals[name] = v
+        for k_, v in kw.items():
+            vals[k_] = v
+        for name, default in fields:
+            if name not in vals:
+                if default is None:
+                    self.issue(st, node, f"missing field {name} constructing {ci.qualname}")
+                    vals[name] = Term('missing', (Const(name),))
+                else:
+                    fr = Frame(None, ci.module, ci)
+                    self.frames.append(fr)
+                    try:
+                        vals[name] = self.eval(default, State())
+                    finally:
+                        self.frames.pop()
+        for name, _ in fields:
+            st.heap.setdefault(obj.oid, {})[name] = vals[name]
+            self.emit('field', st, node, obj=obj, field=name, value=vals[name])
+        post = self.prog.find_method(ci, '__post_init__')
+        if post is not None:
+            self._invoke(post, st, [], {}, None, obj, node)
 
     def inline_class(self, ci: ClassInfo) -> bool:
         init = self.prog.find_method(ci, '__init__')
@@ -1717,6 +1810,8 @@ class Evaluator:
 
     def call_builtin(self, fn: Fn, pos, kw, star_kw, st, node) -> Val:
         name = fn.ref
+        if name == 'str.maketrans' and all(isinstance(p_, Const) and isinstance(p_.v, str) for p_ in pos) and not kw:
+            return Const(str.maketrans(*[p_.v for p_ in pos]))
         if name.startswith('ndarray.') or name.startswith('method.'):
             meth = name.split('.', 1)[1]
             recv = fn.self_val
@@ -1837,7 +1932,7 @@ def _order(a: Num, b: Num) -> bool:
     return sym.show(a.r) > sym.show(b.r)
 
 
-BUILTINS = {'setattr', 'slice', 'len', 'int', 'float', 'abs', 'min', 'max', 'range', 'zip', 'enumerate', 'isinstance', 'iter', 'next', 'open',
+BUILTINS = {'vars', 'setattr', 'slice', 'len', 'int', 'float', 'abs', 'min', 'max', 'range', 'zip', 'enumerate', 'isinstance', 'iter', 'next', 'open',
             'getattr', 'sum', 'round', 'str', 'list', 'tuple', 'print', 'sorted', 'bool', 'hasattr', 'type', 'dict', 'set',
             'any', 'all', 'map', 'filter', 'reversed', 'ValueError', 'IndexError', 'OSError', 'TypeError', 'KeyError',
             'AttributeError', 'Exception', 'TimeoutError', 'RuntimeError', 'NotImplementedError', 'StopIteration', 'callable',
@@ -2103,6 +2198,19 @@ def _as_fill(t):
     return t
 
 
+def h_import_module(ev, pos, kw, st, node):
+    name = _arg(pos, kw, 0, 'name')
+    if isinstance(name, Const) and isinstance(name.v, str) and not name.v.startswith('.') and name.v in ev.prog.modules:
+        return Term('module', (Const(name.v),))
+    return None
+
+
+def b_vars(ev, pos, kw, st, node):
+    if len(pos) == 1 and isinstance(pos[0], Term) and pos[0].head == 'module':
+        return Term('modvars', (pos[0],), kind='dict')
+    return None
+
+
 def h_partial(ev, pos, kw, st, node):
     if not pos:
         return None
@@ -2222,7 +2330,7 @@ def h_ravel(ev, pos, kw, st, node):
 
 LIB_HANDLERS = {
     'numpy.linspace': h_linspace, 'numpy.ravel': h_ravel, 'numpy.full': h_full, 'numpy.pad': h_pad, 'numpy.ptp': h_ptp, 'numpy.fromiter': h_fromiter,
-    'functools.partial': h_partial,
+    'functools.partial': h_partial, 'importlib.import_module': h_import_module,
     **{'operator.' + n_: h_operator(n_) for n_ in ('add', 'sub', 'mul', 'truediv', 'pow', 'floordiv', 'mod', 'lt', 'le', 'gt', 'ge', 'eq', 'ne')},
     'numpy.asarray': h_asarray, 'numpy.asanyarray': h_asarray, 'numpy.array': h_asarray,
     'numpy.ascontiguousarray': h_asarray, 'numpy.atleast_1d': h_asarray,
@@ -2349,15 +2457,28 @@ def b_isinstance(ev, pos, kw, st, node):
     return None
 
 
+def module_binds(prog, modname: str, attr: str) -> Optional[bool]:
+    """does the repository module bind `attr`?  None when its namespace is built dynamically (star imports, globals() manipulation)"""
+    mi = prog.modules.get(modname)
+    if mi is None or mi.is_pkg:
+        return None
+    for n in ast.walk(mi.tree):
+        if isinstance(n, ast.ImportFrom) and any(a.name == '*' for a in n.names):
+            return None
+        if isinstance(n, ast.Call) and isinstance(n.func, ast.Name) and n.func.id in ('globals', 'locals', 'vars', 'setattr', 'exec', 'eval') and n is not None:
+            if n.func.id in ('globals', 'locals', 'exec', 'eval') or (n.func.id == 'vars' and not n.args):
+                return None
+    return attr in mi.functions or attr in mi.classes or attr in mi.constants or attr in mi.imports
+
+
 def b_getattr(ev, pos, kw, st, node):
     if len(pos) >= 2 and isinstance(pos[0], Obj) and isinstance(pos[1], Const) and isinstance(pos[1].v, str):
         return ev.getattr_val(pos[0], pos[1].v, st, node)
     if len(pos) == 2 and not kw and isinstance(pos[0], Term) and pos[0].head == 'module' and isinstance(pos[1], Const) and isinstance(pos[1].v, str):
         mi = ev.prog.modules.get(pos[0].args[0].v)
         if mi is not None and not mi.is_pkg:
-            bound = pos[1].v in mi.functions or pos[1].v in mi.classes or pos[1].v in mi.constants or pos[1].v in mi.imports
-            star = any(isinstance(n, ast.ImportFrom) and any(a.name == '*' for a in n.names) for n in ast.walk(mi.tree))
-            if not bound and not star and not pos[1].v.startswith('__'):
+            bound = module_binds(ev.prog, pos[0].args[0].v, pos[1].v)
+            if bound is False and not pos[1].v.startswith('__'):
                 ev.lib_event('builtins.getattr', pos, kw, None, st, node, NONE)
                 raise _PyRaise('AttributeError')
     return Term('getattr', pos, kind='unknown')
@@ -2384,6 +2505,13 @@ def b_str_isinstance_helper():
 
 
 def b_next(ev, pos, kw, st, node):
+    if pos and isinstance(pos[0], Tup):
+        # next(<comprehension over a literal table>): its first element
+        if pos[0].items:
+            return pos[0].items[0]
+        if len(pos) > 1:
+            return pos[1]
+        raise _PyRaise('StopIteration')
     return Term('lib:next', pos, uid=fresh_serial(), kind='scalar')
 
 
@@ -2425,7 +2553,7 @@ def b_exc(name):
 
 BUILTIN_HANDLERS = {'setattr': b_setattr, 'slice': b_slice, 'len': b_len, 'int': b_int, 'float': b_float, 'abs': b_abs, 'min': _minmax('min'), 'max': _minmax('max'),
                     'range': b_range, 'zip': b_zip, 'enumerate': b_enumerate, 'isinstance': b_isinstance,
-                    'getattr': b_getattr, 'next': b_next, 'iter': b_iter, 'bool': b_bool, 'list': b_list, 'dict': b_dict, 'divmod': b_divmod}
+                    'getattr': b_getattr, 'next': b_next, 'iter': b_iter, 'bool': b_bool, 'list': b_list, 'dict': b_dict, 'divmod': b_divmod, 'vars': b_vars}
 for _n in ('ValueError', 'IndexError', 'OSError', 'TypeError', 'KeyError', 'AttributeError', 'Exception', 'RuntimeError'):
     BUILTIN_HANDLERS[_n] = b_exc(_n)
 
